@@ -205,6 +205,15 @@ func c11units(tier string) []mc.Unit {
 			add("mixed", mixed, n, "")
 		}
 	}
+	us = append(us, historyUnit("api-histories", []hcall{
+		{"ReverseComplement(ACGTNRYKMbdhv)", func() any { return transform.ReverseComplement("ACGTNRYKMbdhv") }, showSprint},
+		{"Complement(acgtnSW)", func() any { return transform.Complement("acgtnSW") }, showSprint},
+		{"Reverse(ACGTN)", func() any { return transform.Reverse("ACGTN") }, showSprint},
+		{"AllVariantsIUPAC(ANT)", func() any { v, _ := variants.AllVariantsIUPAC("ANT"); return v }, showSprint},
+		{"AllVariantsIUPAC(RYK)", func() any { v, _ := variants.AllVariantsIUPAC("RYK"); return v }, showSprint},
+		{"IsPalindromic(GAATTC)", func() any { return checks.IsPalindromic("GAATTC") }, showSprint},
+		{"IsPalindromic(GCWGC)", func() any { return checks.IsPalindromic("GCWGC") }, showSprint},
+	}, 3))
 	// long inputs at lengths around powers of two (an enumerated family): reverse complement against the oracle,
 	// involution, and the anti-homomorphism at a few split points
 	for _, n := range []int{255, 256, 257, 4095, 4097, 9999, 65535, 65537, 70001, tier2(tier, 70003, 100000)} {
